@@ -40,7 +40,7 @@ M0(tr) == [cfg |-> tr.cfg, s |-> << >>, hb |-> 0, maxSid |-> 0,
            peerIW |-> 65535, peerMFS |-> 16384,
            grantC |-> 65535, sentC |-> 0, srvGrantC |-> 65535, peerSentC |-> 0,
            goaways |-> <<>>, closed |-> FALSE, connErr |-> FALSE, peerGone |-> FALSE,
-           cur |-> NoFrame, hasCur |-> FALSE, curAfterClose |-> FALSE, blkBad |-> FALSE, desync |-> FALSE, multi |-> FALSE, allowed |-> {}, obs |-> NoObs,
+           cur |-> NoFrame, hasCur |-> FALSE, curAfterClose |-> FALSE, blkBad |-> FALSE, desync |-> FALSE, gaPc |-> "G1", gaRead |-> 0, slPub |-> 0, multi |-> FALSE, allowed |-> {}, obs |-> NoObs,
            mustErr |-> FALSE, disp |-> {}, setSent |-> 0, ackRecv |-> 0, closes |-> 0, settledMode |-> FALSE,
            bad |-> {}]
 
@@ -392,8 +392,23 @@ OnRet(mm, e) ==
   IN FlagIf(mm, ~e.intime /\ (mm.connErr \/ mm.closed \/ mm.mustErr) /\ unfinished = {},
             "C10:serveconn-did-not-return-after-connection-error " \o e.err)
 
+(* hs: a step of the GOAWAY / new-stream handshake.  GoAwayHandshake.tla proves the last-stream-id true for the   *)
+(* program orders  ga.flag -> ga.read -> ga.sent  (each writeGoAway call; calls are serialised by goAwayLck) and *)
+(* sl.publish(n) -> sl.refuse(n) | sl.accept(n)  (stream loop, each new stream); the recording must show exactly  *)
+(* these orders.                                                                                                  *)
+OnHs(mm, e) ==
+  CASE e.ev = "ga.flag" -> [FlagIf(mm, mm.gaPc # "G1", "C10:goaway-handshake-out-of-order (ga.flag at " \o mm.gaPc \o ")") EXCEPT !.gaPc = "G2"]
+    [] e.ev = "ga.read" -> [FlagIf(mm, mm.gaPc # "G2", "C10:goaway-handshake-out-of-order (last-stream-id read before the closing flag was raised)")
+                             EXCEPT !.gaPc = "G3", !.gaRead = e.v]
+    [] e.ev = "ga.sent" -> [FlagIf(mm, mm.gaPc # "G3", "C10:goaway-handshake-out-of-order (ga.sent at " \o mm.gaPc \o ")") EXCEPT !.gaPc = "G1"]
+    [] e.ev = "sl.publish" -> [FlagIf(mm, mm.slPub # 0, "C10:goaway-handshake-out-of-order (two ids published, none decided)") EXCEPT !.slPub = e.v]
+    [] e.ev \in {"sl.refuse", "sl.accept"} ->
+         [FlagIf(mm, mm.slPub # e.v, "C10:goaway-handshake-out-of-order (stream decided before its id was published)") EXCEPT !.slPub = 0]
+    [] OTHER -> mm
+
 Step(mm, e) ==
   CASE e.k = "send"  -> OnSend(mm, e.f)
+    [] e.k = "hs" -> OnHs(mm, e)
     [] e.k = "recv"  -> OnRecv(mm, e.f)
     [] e.k = "hstart" -> OnHStart(mm, e)
     [] e.k = "hend"  -> OnHEnd(mm, e)
